@@ -260,11 +260,11 @@ func runC23(op string) string {
 	// as soon as that has happened), short when nothing more can happen
 	settle := 30 * time.Millisecond
 	if !isGet {
-		settle = 500 * time.Millisecond
+		settle = 2 * time.Second
 	}
 	for _, e := range evs {
 		if e == "D" || e == "N" {
-			settle = 500 * time.Millisecond
+			settle = 2 * time.Second
 		}
 	}
 	if isGet {
